@@ -562,6 +562,13 @@ def plan_merge(run, prop, tier):
     return acc
 
 
+def hexgen_cfg(maxlen, maxidx, mode, tier):
+    # longer byte strings around powers of two (chunked loops, length fields of one byte, ...), indices at the edges only
+    longs = "{15, 16, 17, 31, 32, 33, 63, 64, 65, 127, 128, 129, 255, 256, 257}" if tier == "quick" else \
+            "{24, 31, 32, 33, 63, 64, 65, 127, 128, 129, 255, 256, 257, 511, 512, 513, 1000, 1023, 1024, 1025}"
+    return (f"INIT Init\nNEXT Next\nCONSTANTS MaxLen = {maxlen} MaxIdx = {maxidx} Mode = \"{mode}\" LongLens = {longs}\nCHECK_DEADLOCK FALSE\n")
+
+
 def plan_hex(run, prop, tier):
     """C15 / C16: HexGen.tla enumerates the bounded input space with the expected outcome of every case; the harness runs
     every case on the real Hex in each representation (from_slice, from_vec, hand-built Vector, hand-built Bytes with junk
@@ -569,7 +576,7 @@ def plan_hex(run, prop, tier):
     acc = Acc()
     mode = "access" if prop == "C15" else "concat"
     maxlen, maxidx = (11, 12) if tier == "quick" else (17, 19)
-    cfg = f"INIT Init\nNEXT Next\nCONSTANTS MaxLen = {maxlen} MaxIdx = {maxidx} Mode = \"{mode}\"\nCHECK_DEADLOCK FALSE\n"
+    cfg = hexgen_cfg(maxlen, maxidx, mode, tier)
     path, cached = vlib.emit_ts(run, "HexGen", cfg)
     obs = run.fresh("hexobs", ".ndjson")
     p = vlib.sh([H, "hexvec", "--vectors", path, "--obs-out", obs], timeout=3000)
@@ -1222,7 +1229,7 @@ def warm(run):
     vlib.emit_ts(run, "MergeGen", cfg_mergegen(6, [0, 1], [0, 1, 2, 3], 2, 2, 2, False), workers=8)
     vlib.emit_ts(run, "ScriptGen", cfg_scriptgen(5, 4, [0, 1], ["x", "y"], ["foo", "%RHO%"], ["CA-FE", "00-1A-2B-3C-4D-5E-6F-70-81"]), workers=8)
     for mode in ("access", "concat"):
-        vlib.emit_ts(run, "HexGen", f"INIT Init\nNEXT Next\nCONSTANTS MaxLen = 11 MaxIdx = 12 Mode = \"{mode}\"\nCHECK_DEADLOCK FALSE\n")
+        vlib.emit_ts(run, "HexGen", hexgen_cfg(11, 12, mode, "quick"))
     vlib.emit_ts(run, "LabelGen", "INIT Init\nNEXT Next\nCONSTANTS Full = 4 LongLo = 5 LongHi = 10\nCHECK_DEADLOCK FALSE\n", timeout=3000)
     vlib.apalache_ind(run)
     vlib.tlaps_ind(run)
